@@ -58,6 +58,36 @@ theorem poolRelease_sessions (s : Srv) (k : Nat) : (poolRelease s k).sessions = 
   unfold poolRelease
   split <;> rfl
 
+/-- looking a key up in a table filtered by a predicate on keys -/
+theorem lookup_filter_key {ν : Type} (f : Nat → Bool) (m : AMap Nat ν) (k : Nat) :
+    lookup (m.filter (fun p => f p.1)) k = if f k then lookup m k else none := by
+  induction m with
+  | nil => simp [lookup]
+  | cons p rest ih =>
+    obtain ⟨a, b⟩ := p
+    rw [List.filter_cons]
+    by_cases hf : f a = true
+    · simp only [hf, if_true]
+      rw [lookup_cons, lookup_cons, ih]
+      by_cases e : a = k
+      · subst e; simp [hf]
+      · simp [e]
+    · have hf' : f a = false := by simpa using hf
+      simp only [hf', Bool.false_eq_true, if_false]
+      rw [lookup_cons, ih]
+      by_cases e : a = k
+      · subst e; simp [hf']
+      · simp [e]
+
+/-- a session found after a sweep pass was there before it, unchanged -/
+theorem lookup_sweep {s : Srv} {keep : List Nat} {sid : Nat} {x : Sess}
+    (h : lookup (step s (.sweep keep)).1.sessions sid = some x) : lookup s.sessions sid = some x := by
+  simp only [step] at h
+  rw [lookup_filter_key (fun k => keep.contains k)] at h
+  split at h
+  · exact h
+  · simp at h
+
 theorem inv_step {s : Srv} (hI : Inv s) (i : In) : Inv (step s i).1 := by
   cases i with
   | padi m => exact hI
@@ -123,8 +153,8 @@ theorem inv_step {s : Srv} (hI : Inv s) (i : In) : Inv (step s i).1 := by
           apply inv_setSess hI _
           exact ⟨hok.1, fun _ => hok.1 hauth, hok.2.2⟩
   | ip m sid => exact hI
-  | sweep =>
-    intro sid x h; simp [step] at h
+  | sweep keep =>
+    intro sid x h; exact hI sid x (lookup_sweep h)
 
 theorem inv_run {s : Srv} (hI : Inv s) (ins : List In) : Inv (run s ins) := by
   induction ins generalizing s with
@@ -198,7 +228,7 @@ theorem ipcp_ack_requires_auth (radius : Bool) (bits : Nat) (ins : List In) (i :
       · split at ho <;> rcases hk with hk | hk <;> subst hk <;> simp at ho
       · rcases hk with hk | hk <;> subst hk <;> simp at ho
   | ip m' sid' => simp [step] at ho
-  | sweep => simp [step] at ho
+  | sweep keep => simp [step] at ho
 
 /-- the (source MAC, session id) a frame is addressed with, for frames that target an existing session -/
 def target : In → Option (Nat × Nat)
@@ -220,7 +250,7 @@ theorem foreign_mac_inert (s : Srv) (i : In) (m sid : Nat) (x : Sess)
   cases i with
   | padi _ => simp [target] at ht
   | padr _ _ => simp [target] at ht
-  | sweep => simp [target] at ht
+  | sweep keep => simp [target] at ht
   | padt m' sid' =>
     simp only [target, Option.some.injEq, Prod.mk.injEq] at ht
     obtain ⟨h1, h2⟩ := ht; subst h1; subst h2; simp [step, hg]
@@ -324,7 +354,7 @@ theorem ghost_set_only_by_accepted_pap (s : Srv) (i : In) (sid : Nat) (x' : Sess
         · exact Or.inl ⟨x', h, ha⟩
         · (simp only [setSess] at h; exact Or.inl (keep sid' x _ hx h rfl))
   | ip m sid' => exact Or.inl ⟨x', h, ha⟩
-  | sweep => simp [step] at h
+  | sweep keep => exact Or.inl ⟨x', lookup_sweep h, ha⟩
 
 /-! non-vacuity: a concrete history reaches an established, addressed session (so the theorems are not
     about an empty set of states), and a foreign frame really is ignored -/
